@@ -33,6 +33,48 @@ def load_classes():
     return classes, where
 
 
+
+# The semantic method surface of the kernel classes that the theorems are about: a class that starts (or stops) overriding one of
+# these methods changes which code computes a kernel value, so the translator fails closed until the table below is revisited.
+SEMANTIC = {"evaluate", "evaluate_diag", "__call__", "matmul", "__add__", "__radd__", "__mul__", "__rmul__", "distance",
+            "squared_distance", "design_matrix", "stationary_covariance", "observation_model", "transition_matrix",
+            "coord_to_sortable", "to_symm_qsm", "to_general_qsm"}
+QS4 = ["design_matrix", "observation_model", "stationary_covariance", "transition_matrix"]
+SURFACE = {
+    "base.Conditioned": ["evaluate", "evaluate_diag"], "base.Constant": ["evaluate"], "base.Custom": ["evaluate"],
+    "base.DotProduct": ["evaluate"],
+    "base.Kernel": ["__add__", "__call__", "__mul__", "__radd__", "__rmul__", "evaluate", "evaluate_diag", "matmul"],
+    "base.Polynomial": ["evaluate"], "base.Product": ["evaluate"], "base.Sum": ["evaluate"],
+    "distance.Distance": ["distance", "squared_distance"], "distance.L1Distance": ["distance"],
+    "distance.L2Distance": ["distance", "squared_distance"],
+    "quasisep.CARMA": QS4, "quasisep.Celerite": QS4, "quasisep.Cosine": QS4, "quasisep.Exp": QS4, "quasisep.Matern32": QS4,
+    "quasisep.Matern52": QS4, "quasisep.SHO": QS4,
+    "quasisep.Product": ["coord_to_sortable"] + QS4, "quasisep.Sum": ["coord_to_sortable"] + QS4,
+    "quasisep.Wrapper": ["coord_to_sortable"] + QS4, "quasisep.Scale": ["stationary_covariance"],
+    "quasisep.Quasisep": ["__add__", "__mul__", "__radd__", "__rmul__", "coord_to_sortable", "design_matrix", "evaluate",
+                          "evaluate_diag", "matmul", "observation_model", "stationary_covariance", "to_general_qsm",
+                          "to_symm_qsm", "transition_matrix"],
+    "stationary.Cosine": ["evaluate"], "stationary.Exp": ["evaluate"], "stationary.ExpSineSquared": ["evaluate"],
+    "stationary.ExpSquared": ["evaluate"], "stationary.Matern32": ["evaluate"], "stationary.Matern52": ["evaluate"],
+    "stationary.RationalQuadratic": ["evaluate"], "stationary.Stationary": [],
+    "transforms.Cholesky": ["evaluate"], "transforms.Linear": ["evaluate"], "transforms.Subspace": ["evaluate"],
+    "transforms.Transform": ["evaluate"],
+}
+
+
+def check_surface(classes, where):
+    for q, node in sorted(classes.items()):
+        have = sorted(st.name for st in node.body if isinstance(st, ast.FunctionDef) and st.name in SEMANTIC)
+        want = sorted(SURFACE.get(q, []))
+        if q not in SURFACE and have:
+            raise TranslationError(f"{where[q]}: new class {q.split('.')[-1]} defines {have}: unknown to the translator")
+        if have != want:
+            extra = [m for m in have if m not in want]
+            gone = [m for m in want if m not in have]
+            raise TranslationError(f"{where[q]}: class {q.split('.')[-1]} now overrides {extra} / no longer defines {gone}: "
+                                   "the code that computes kernel values changed; the translated definitions do not cover it")
+
+
 def class_fields(classes, qual):
     """Annotated dataclass fields along the inheritance chain (equinox Module fields)."""
     mod = qual.split(".")[0]
@@ -346,6 +388,7 @@ def main():
     import jax
     jax.config.update("jax_enable_x64", True)
     classes, where = load_classes()
+    check_surface(classes, where)
     make_specs()
     rng = np.random.default_rng(12345)
     lines = ["(* GENERATED by /verif/tools/translate/gen_kernels.py from /repo/src/tinygp — do not edit. *)",
